@@ -60,7 +60,8 @@ def _sym_pyramid(cfg):
 
 
 def _inv(pw, cfg, yl, yh):
-    return D.make_module(pw, 'inv1' if cfg['dim'] == 1 else 'inv2', cfg)((yl, yh))
+    m = D.make_module(pw, 'inv1' if cfg['dim'] == 1 else 'inv2', cfg)
+    return D.call_ctx(pw, cfg, lambda a: m((a[0], list(a[1:]))), [yl] + list(yh))
 
 
 def _all_ids(ids_l, ids_h):
@@ -97,9 +98,9 @@ def _oracle_rows(cfg, shapes_l, shapes_h, mask):
     yh = [None if (mask and mask[j]) else a for j, a in enumerate(arrs[1:])]
     if cfg['dim'] == 2:
         yh2 = [(None, None, None) if h is None else tuple(np.take(h, i, axis=-3) for i in range(3)) for h in yh]
-        r = pywt.waverec2([arrs[0]] + yh2[::-1], cfg['wave'], mode=cfg['mode'], axes=(-2, -1))
+        r = pywt.waverec2([arrs[0]] + yh2[::-1], D.W(cfg['wave']), mode=cfg['mode'], axes=(-2, -1))
     else:
-        r = pywt.waverec([arrs[0]] + yh[::-1], cfg['wave'], mode=cfg['mode'], axis=-1)
+        r = pywt.waverec([arrs[0]] + yh[::-1], D.W(cfg['wave']), mode=cfg['mode'], axis=-1)
     return np.moveaxis(r, 0, -1)
 
 
@@ -162,10 +163,10 @@ def case(cfg):
     def ref(arrs):
         hs = [None if (use_mask and mask[j]) else h for j, h in enumerate(arrs[1:])]
         if cfg['dim'] == 1:
-            r = pywt.waverec([arrs[0]] + hs[::-1], cfg['wave'], mode=cfg['mode'], axis=-1)
+            r = pywt.waverec([arrs[0]] + hs[::-1], D.W(cfg['wave']), mode=cfg['mode'], axis=-1)
         else:
             co = [arrs[0]] + [(None, None, None) if h is None else tuple(np.take(h, i, axis=-3) for i in range(3)) for h in hs[::-1]]
-            r = pywt.waverec2(co, cfg['wave'], mode=cfg['mode'], axes=(-2, -1))
+            r = pywt.waverec2(co, D.W(cfg['wave']), mode=cfg['mode'], axes=(-2, -1))
         return [_extent(r, cfg) if use_mask else r]
     return in_specs, impl, impl_zeros, ref
 
